@@ -90,22 +90,113 @@ def snapshot(x):
     return repr(x)
 
 
-def _vec_mismatch(got, exp):
-    """exp: list of [num, den]; got: array-like of the same length."""
+TOL = 1e-9           # relative, per entry
+FLOOR = 0.1          # entries are also allowed an absolute error of FLOOR * tol * (largest expected magnitude):
+                     # an exact 0 comes back as round-off of the largest terms, never as an exact 0
+
+
+def rel_mismatch(got, exp, tol=TOL, scale=None):
+    """Index of the worst entry of `got` that is not within tol RELATIVE to the expected entry (plus the absolute
+    floor above, relative to `scale`, default the largest expected magnitude), or None.  Arrays of equal shape."""
+    got = np.asarray(got, dtype=float)
+    exp = np.asarray(exp, dtype=float)
+    if scale is None:
+        scale = float(np.max(np.abs(exp))) if exp.size else 0.0
+    with np.errstate(all="ignore"):
+        err = np.abs(got - exp)
+        ok = np.isfinite(got) & (err <= tol * np.abs(exp) + FLOOR * tol * scale)
+    if ok.all():
+        return None
+    excess = np.where(ok, -1.0, np.where(np.isfinite(err), err / (tol * np.abs(exp) + FLOOR * tol * scale + 1e-300),
+                                         np.inf))
+    return np.unravel_index(int(np.argmax(excess)), got.shape)
+
+
+def _describe(got, exp, idx, cap=40):
+    got, exp = np.asarray(got, dtype=float), np.asarray(exp, dtype=float)
+    d = {"index": [int(i) for i in idx], "got_there": float(got[idx]), "expected_there": float(exp[idx])}
+    if got.size <= cap:
+        d["got"], d["expected"] = got.tolist(), exp.tolist()
+    return d
+
+
+def _vec_mismatch(got, exp, tol=TOL, scale=None):
+    """exp: list of [num, den] (or of floats); got: array-like of the same length."""
     try:
         g = np.asarray(got, dtype=float).ravel()
     except Exception as ex:
         return "result not numeric: %s" % ex
     if g.shape[0] != len(exp):
         return {"got_shape": list(np.shape(got)), "expected_len": len(exp)}
-    for k, (x, (num, den)) in enumerate(zip(g, exp)):
-        if not (np.isfinite(x) and core.close(float(x), num, den)):
-            return {"index": k, "got": g.tolist(), "expected": [a / b for a, b in exp]}
-    return None
+    e = np.array([x[0] / x[1] if isinstance(x, (list, tuple)) else x for x in exp], dtype=float)
+    idx = rel_mismatch(g, e, tol, scale)
+    return None if idx is None else _describe(g, e, idx)
+
+
+# ---- the same SET of states, handed over in different orders and integer containers.  The specification's expected
+# values belong to the set (Committor.tla / LineChain.tla: src and snk are sets), so the emitted case is replayed
+# unchanged with each of these listings.
+def _rot(x):
+    return x[1:] + x[:1]
+
+
+def _strided(x):
+    buf = np.full(2 * len(x) + 1, -7, dtype=np.int64)
+    buf[1::2] = x
+    return buf[1::2]
+
+
+FORMS = [("ndarray", lambda x: np.array(x)),
+         ("list-reversed", lambda x: list(reversed(x))),
+         ("ndarray-rotated", lambda x: np.array(_rot(x))),
+         ("int32-reversed", lambda x: np.array(x[::-1], dtype=np.int32)),
+         ("tuple-rotated", lambda x: tuple(_rot(x))),
+         ("uint16-reversed", lambda x: np.array(x[::-1], dtype=np.uint16)),
+         ("int64-view-rotated", lambda x: _strided(_rot(_rot(x)))),
+         ("list-middle-out", lambda x: x[len(x) // 2:] + x[:len(x) // 2][::-1]),
+         ("int16-reversed", lambda x: np.array(x[::-1], dtype=np.int16)),
+         ("list", lambda x: list(x))]
+
+
+def _form_snapshot(a):
+    return snapshot(a) if isinstance(a, np.ndarray) else repr(a)
 
 
 def _is_len_typeerror(ex):
     return isinstance(ex, TypeError) and "length" in str(ex)
+
+
+class _Caller:
+    """Calls one entry point, records raised exceptions, modified arguments and value mismatches in self.bad."""
+
+    def __init__(self, tol=TOL):
+        self.bad = []
+        self.tol = tol
+
+    def __call__(self, fname, cont, form, f, args, exp, scale=None, tol=None, check=None):
+        """f(): the call; args: every object handed to it (snapshotted before and after); exp: expected vector
+        ([num, den] pairs or floats), or check(got) -> mismatch detail or None."""
+        before = [_form_snapshot(a) for a in args]
+        what = "%s %s %s" % (fname, cont, form)
+        try:
+            with warnings.catch_warnings(), np.errstate(all="ignore"):
+                warnings.simplefilter("ignore")
+                got = f()
+        except Exception as ex:
+            sparse = not cont.startswith("dense")
+            if fname.startswith("mfpts") and sparse and _is_len_typeerror(ex):
+                key = "mfpts/sparse/TypeError-len"
+            else:
+                key = "%s/%s/raises-%s" % (fname, cont, type(ex).__name__)
+            self.bad.append({"key": key, "call": what, "detail": "raised %s: %s" % (type(ex).__name__, ex)})
+            return None
+        if [_form_snapshot(a) for a in args] != before:
+            self.bad.append({"key": "%s/%s/input-modified" % (fname, cont), "call": what,
+                             "detail": "an argument was modified by the call"})
+        mm = check(got) if check is not None else _vec_mismatch(got, exp, tol or self.tol, scale)
+        if mm is not None:
+            self.bad.append({"key": "%s/%s/value" % (fname, cont), "call": what, "detail": mm})
+        return got
 
 
 def replay_case(c):
@@ -118,59 +209,45 @@ def replay_case(c):
     snk = [s - 1 for s in c["snk"]]
     lag = c["lag"][0] / c["lag"][1]
     mode = c["mode"]
-    bad = []
-
-    def call(fname, cont, form, f, args, exp):
-        before = [snapshot(a) for a in args]
-        try:
-            with warnings.catch_warnings(), np.errstate(all="ignore"):
-                warnings.simplefilter("ignore")
-                got = f()
-        except Exception as ex:
-            sparse = cont != "dense"
-            if fname.startswith("mfpts") and sparse and _is_len_typeerror(ex):
-                key = "mfpts/sparse/TypeError-len"
-            else:
-                key = "%s/%s/raises-%s" % (fname, cont, type(ex).__name__)
-            bad.append({"key": key, "call": "%s %s %s" % (fname, cont, form),
-                        "detail": "raised %s: %s" % (type(ex).__name__, ex)})
-            return
-        if [snapshot(a) for a in args] != before:
-            bad.append({"key": "%s/%s/input-modified" % (fname, cont), "call": "%s %s %s" % (fname, cont, form),
-                        "detail": "an argument was modified by the call"})
-        mm = _vec_mismatch(got, exp)
-        if mm is not None:
-            bad.append({"key": "%s/%s/value" % (fname, cont), "call": "%s %s %s" % (fname, cont, form),
-                        "detail": mm})
+    call = _Caller()
+    fname, form = FORMS[c.get("form", 0) % len(FORMS)]
 
     for cont, M in _containers(T):
         if cont not in c.get("containers", ALL_CONTAINERS):
             continue
         if mode == "committor":
             a_src, a_snk = np.array(src), np.array(snk)
-            call("committors", cont, "lists", lambda: tpt.committors(M, a_src, a_snk), [M, a_src, a_snk], c["q"])
+            call("committors", cont, "arrays", lambda: tpt.committors(M, a_src, a_snk), [M, a_src, a_snk], c["q"],
+                 scale=1.0)
             if cont != "dense":
                 continue                      # the argument forms below do not depend on the container
             l_src, l_snk = list(src), list(snk)
-            call("committors", cont, "pylists", lambda: tpt.committors(M, l_src, l_snk), [M], c["q"])
-            if (l_src, l_snk) != (src, snk):
-                bad.append({"key": "committors/%s/input-modified" % cont, "call": "pylists",
-                            "detail": "source/sink lists modified"})
+            call("committors", cont, "pylists", lambda: tpt.committors(M, l_src, l_snk), [M, l_src, l_snk], c["q"],
+                 scale=1.0)
+            f_src, f_snk = form(src), form(snk)      # another order / integer container of the same sets
+            call("committors", cont, fname, lambda: tpt.committors(M, f_src, f_snk), [M, f_src, f_snk], c["q"],
+                 scale=1.0)
             if len(src) == 1 and len(snk) == 1:
-                call("committors", cont, "scalars", lambda: tpt.committors(M, src[0], snk[0]), [M], c["q"])
+                call("committors", cont, "scalars", lambda: tpt.committors(M, src[0], snk[0]), [M], c["q"], scale=1.0)
         elif mode == "mfpt_sinks":
             a_snk = np.array(snk)
             call("mfpts-sinks", cont, "lag=%s" % lag, lambda: tpt.mfpts(M, sinks=a_snk, lagtime=lag),
-                 [M, a_snk], c["m"])
+                 [M, a_snk], c["m"], scale=lag)
             if c["lag"] == [1, 1]:
-                call("mfpts-sinks", cont, "default lag", lambda: tpt.mfpts(M, sinks=list(snk)), [M], c["m"])
+                l_snk = list(snk)
+                call("mfpts-sinks", cont, "default lag", lambda: tpt.mfpts(M, sinks=l_snk), [M, l_snk], c["m"],
+                     scale=lag)
+            if cont == "dense" or len(snk) > 1:
+                f_snk = form(snk)
+                call("mfpts-sinks", cont, "lag=%s sinks as %s" % (lag, fname),
+                     lambda: tpt.mfpts(M, sinks=f_snk, lagtime=lag), [M, f_snk], c["m"], scale=lag)
         else:
             exp = [x for row in c["mAll"] for x in row]
             pops = np.array([a / b for a, b in c["pi"]])
             call("mfpts-all", cont, "lag=%s pops=None" % lag, lambda: tpt.mfpts(M, lagtime=lag), [M], exp)
             call("mfpts-all", cont, "lag=%s pops given" % lag,
                  lambda: tpt.mfpts(M, populations=pops, lagtime=lag), [M, pops], exp)
-    return bad
+    return call.bad
 
 
 ALL_CONTAINERS = ("dense", "csr", "lil", "csc", "dense-F", "dense-view")
@@ -181,6 +258,7 @@ def choose_containers(cases, tier):
     memory layout in rotation (a sparse committors call costs ~1 ms); everything else, and the thorough tier, uses
     all six."""
     for k, c in enumerate(cases):
+        c["form"] = 1 + k % (len(FORMS) - 1)          # order / integer container of sources and sinks, in rotation
         if tier == "quick" and c.get("mode", "flux") in ("committor", "flux"):
             c["containers"] = ["dense", ALL_CONTAINERS[1 + k % 3], ALL_CONTAINERS[4 + (k // 3) % 2]]
         else:
